@@ -60,6 +60,48 @@ func init() {
 // subjectSet: values of fn that denote parameter p, possibly after stripping wrappers with Elem.
 func subjectSet(fn *ssa.Function, p *ssa.Parameter) map[ssa.Value]bool {
 	set := map[ssa.Value]bool{p: true}
+	// a parameter captured by a closure (a range-over-func body, say) lives in a cell: the loads of that cell,
+	// in the function and in its closures, denote the same value as long as every store into the cell is the
+	// parameter itself or the stripping of a wrapper from it
+	var cell *ssa.Alloc
+	core.EachInstr(fn, func(i ssa.Instruction) {
+		if st, ok := i.(*ssa.Store); ok && st.Val == p {
+			if a, ok := st.Addr.(*ssa.Alloc); ok {
+				cell = a
+			}
+		}
+	})
+	if cell != nil {
+		okCell := true
+		var loads []ssa.Value
+		for _, f := range core.WithAnon(fn) {
+			core.EachInstr(f, func(i ssa.Instruction) {
+				switch x := i.(type) {
+				case *ssa.UnOp:
+					if x.Op == token.MUL && resolveCell(x.X) == cell {
+						loads = append(loads, x)
+					}
+				case *ssa.Store:
+					if resolveCell(x.Addr) == cell && x.Val != p {
+						// v = v.Elem(): stripping
+						c, isCall := x.Val.(*ssa.Call)
+						if !isCall || !(core.CalleeKey(&c.Call) == "reflect.Value.Elem" || core.CalleeKey(&c.Call) == "reflect.Indirect") {
+							okCell = false
+							return
+						}
+						if ld, isLd := c.Call.Args[0].(*ssa.UnOp); !isLd || resolveCell(ld.X) != cell {
+							okCell = false
+						}
+					}
+				}
+			})
+		}
+		if okCell {
+			for _, l := range loads {
+				set[l] = true
+			}
+		}
+	}
 	changed := true
 	for changed {
 		changed = false
@@ -287,6 +329,21 @@ func ruleC08StripBoth(c *Ctx) {
 // mapAccessKeyOK decides whether the key of a reflect map access is assignable to the map's key type.
 func (c *Ctx) mapAccessKeyOK(call *ssa.Call, recv, key ssa.Value) (bool, string) {
 	for _, s := range traceSourcesPhi(key) {
+		// the key of a map iteration written as `for k, v := range m.Seq2()`: a key taken from map m
+		if p, isP := s.val.(*ssa.Parameter); isP {
+			if mv := reflectSeqOf(p); mv != nil {
+				if sameMapValue(mv, recv) || sharesSource(mv, recv) {
+					continue
+				}
+				if s.pred != nil && c.edgeGuardedByTypeEquality(s.pred, p, recv) {
+					continue
+				}
+				if c.instrGuardedByTypeEquality(call, p, recv) {
+					continue
+				}
+				return false, "a key of another map, used without converting it to this map's key type"
+			}
+		}
 		sc, ok := s.val.(*ssa.Call)
 		if !ok {
 			return false, fmt.Sprintf("%T", s.val)
@@ -399,7 +456,7 @@ func sameMapValue(a, b ssa.Value) bool {
 	return false
 }
 
-func (c *Ctx) isTypeEqualityTest(cond ssa.Value, key *ssa.Call, recv ssa.Value) bool {
+func (c *Ctx) isTypeEqualityTest(cond ssa.Value, key ssa.Value, recv ssa.Value) bool {
 	bo, ok := cond.(*ssa.BinOp)
 	if !ok || (bo.Op != token.EQL && bo.Op != token.NEQ) {
 		return false
@@ -420,7 +477,7 @@ func (c *Ctx) isTypeEqualityTest(cond ssa.Value, key *ssa.Call, recv ssa.Value) 
 	return (isKeyType(bo.X) && isMapKeyType(bo.Y)) || (isKeyType(bo.Y) && isMapKeyType(bo.X))
 }
 
-func (c *Ctx) edgeGuardedByTypeEquality(pred *ssa.BasicBlock, key *ssa.Call, recv ssa.Value) bool {
+func (c *Ctx) edgeGuardedByTypeEquality(pred *ssa.BasicBlock, key ssa.Value, recv ssa.Value) bool {
 	last := pred.Instrs[len(pred.Instrs)-1]
 	if ifi, ok := last.(*ssa.If); ok && c.isTypeEqualityTest(ifi.Cond, key, recv) {
 		return true
@@ -433,7 +490,7 @@ func (c *Ctx) edgeGuardedByTypeEquality(pred *ssa.BasicBlock, key *ssa.Call, rec
 	return false
 }
 
-func (c *Ctx) instrGuardedByTypeEquality(i ssa.Instruction, key *ssa.Call, recv ssa.Value) bool {
+func (c *Ctx) instrGuardedByTypeEquality(i ssa.Instruction, key ssa.Value, recv ssa.Value) bool {
 	for _, g := range guardsOf(i) {
 		if c.isTypeEqualityTest(g.Cond, key, recv) {
 			return true
@@ -682,7 +739,7 @@ func ruleC11NumbersFirst2(c *Ctx, rule string) {
 		if !ok || len(ret.Results) != 1 {
 			return
 		}
-		bo, ok := ret.Results[0].(*ssa.BinOp)
+		bo, ok := returnedValue(ret, 0).(*ssa.BinOp)
 		if !ok || bo.Op != token.EQL {
 			return
 		}
@@ -717,7 +774,7 @@ func ruleC11NumbersFirst2(c *Ctx, rule string) {
 		if !ok || len(ret.Results) != 1 {
 			return
 		}
-		k, isConst := ret.Results[0].(*ssa.Const)
+		k, isConst := returnedValue(ret, 0).(*ssa.Const)
 		if !isConst || k.Value == nil || k.Value.String() != "false" {
 			return
 		}
@@ -942,7 +999,7 @@ func ruleC11CaseCoverage2(c *Ctx, rule string) {
 		if !ok || len(ret.Results) != 1 {
 			return
 		}
-		k, isConst := ret.Results[0].(*ssa.Const)
+		k, isConst := returnedValue(ret, 0).(*ssa.Const)
 		if !isConst || k.Value == nil || k.Value.String() != "true" {
 			return
 		}
@@ -1464,7 +1521,7 @@ func blockReturnsConst(b *ssa.BasicBlock, val string) bool {
 			if len(ret.Results) != 1 {
 				return false
 			}
-			k, ok := ret.Results[0].(*ssa.Const)
+			k, ok := returnedValue(ret, 0).(*ssa.Const)
 			return ok && k.Value != nil && k.Value.String() == val
 		}
 		if len(b.Succs) != 1 {
@@ -1509,4 +1566,21 @@ func (c *Ctx) hashWriter(h *ssa.Function) *ssa.Function {
 		return w
 	}
 	return h
+}
+
+// returnedValue: result k of ret; when the function spills its results to cells (deferred calls, range-over-func
+// bodies that return) the value stored last on the straight-line path to the return.
+func returnedValue(ret *ssa.Return, k int) ssa.Value {
+	if k >= len(ret.Results) {
+		return nil
+	}
+	v := ret.Results[k]
+	if ld, ok := v.(*ssa.UnOp); ok && ld.Op == token.MUL {
+		if cell := resolveCell(ld.X); cell != nil {
+			if st := nearestStore(ret, cell); st != nil {
+				return st.Val
+			}
+		}
+	}
+	return v
 }
